@@ -172,6 +172,7 @@ structure World where
   pqs : Array PQ := #[]
   conds : Array Nat := #[]         -- guard id of each condition
   flags : Array Int := Array.replicate 8 0
+  gvars : Array Nat := Array.replicate 16 0
   log : Array String := #[]
   fault : Option String := none
   dispatched : Nat := 0
